@@ -381,6 +381,8 @@ theorem rel_put {L : Nat} {E : Enc L} {c : CSt} {a a' : ASt} {full : Nat → Key
   obtain ⟨lh', res, full', hput, hpp⟩ := putL_spec (E := E) (P := fun id => vis id (some l)) ((E.enc k).length + 1) c.lh full r (E.enc k)
     (some ⟨k, v⟩) b.height hr.ok (fun id n x hv hn hx => hr.closed id n x _ hv hn hx) r3 ⟨cn, hcn⟩
     (by rw [r2, E.len]; simp) hkne (Nat.lt_succ_self _)
+    (fun id n hv hn => by have := hr.dye id n _ hv hn; simpa [hOf, hb] using this)
+    ⟨⟨k, v⟩, rfl, by rw [r2]; rfl⟩
   -- the writer owns what it mutates
   have hown : ∀ (id : Nat) (n : LN) (o : Option Nat), c.lh[id]? = some n → vis id (some l) → n.dye = b.height → vis id o → o = some l := by
     intro id n o hn hv hd hvo
@@ -405,7 +407,7 @@ theorem rel_put {L : Nat} {E : Enc L} {c : CSt} {a a' : ASt} {full : Nat → Key
       exact ⟨by omega, by rw [hpp.fsame r r1]; exact r2, Or.inl ⟨r1, r3⟩⟩
     | some t =>
       simp only [Option.getD_some]
-      obtain ⟨a1, n, nt, _, a3, _, a5⟩ := hpp.root t hres
+      obtain ⟨a1, n, nt, _, a3, _, a5, _⟩ := hpp.root t hres
       exact ⟨valid_lt a3, by rw [a5]; exact r2, Or.inr ⟨a1, by simp⟩⟩
   -- frame for the other views
   have hframe : ∀ (o : Option Nat) (rx : Nat), o ≠ some l → rx < c.lh.length → vis rx o → ∀ t, look lh' rx t = look c.lh rx t := by
@@ -613,6 +615,7 @@ theorem rel_get {L : Nat} {E : Enc L} {c : CSt} {a : ASt} {full : Nat → Key} {
         intro h0; have h1 := E.len k; rw [h0] at h1; have := E.pos; simp only [List.length_nil] at h1; omega
       obtain ⟨lh', full', hins, hpp⟩ := insertL_spec (E := E) ((E.enc k).length + 1) c.lh full (c.rootOf l) (E.enc k)
         (some ⟨k, v⟩) hr.ok ⟨cn, hcn⟩ (by rw [rr2, E.len]; simp) hkne (Nat.lt_succ_self _) ho
+        ⟨⟨k, v⟩, rfl, by rw [rr2]; rfl⟩
       have hK : full (c.rootOf l) ++ E.enc k = E.enc k := by rw [rr2]; rfl
       obtain ⟨sp, hstr⟩ := hpp.str
       -- the views that gain the cached entry
